@@ -4,6 +4,7 @@ import FinamModel.Translated.DelayFixed_with_delay
 import FinamModel.Translated.DelayToPush_with_delay
 import FinamModel.Translated.DelayToPull_with_delay
 import FinamModel.Translated.DelayToPull__pulled
+import FinamModel.Translated.TimeDelayAdapter_get_info
 /-
   Equivalence of the *translated* delay-adapter functions (regenerated from `finam/adapters/time.py` by
   `harness/py2lean.py` on every run) with the hand-written model the C13 / C01 / C02 / C04 theorems are about.
@@ -103,6 +104,13 @@ theorem tr_DelayToPush_with_delay (push : Option Int) (init t : Int) :
       simp [h, this, Py.unwrap, bind, Except.bind]
     · have : t ≤ p := by omega
       simp [h, this, Py.unwrap, bind, Except.bind]
+
+/-- **`TimeDelayAdapter.get_info`**: the time a delay adapter clamps its shifted requests at (`initial_time`, the
+    `init` of `Ad.dfix` / `Ad.dpull` in the model) is the time of the *source's* metadata — whatever time the requesting
+    side states, and whatever was stored before -/
+theorem tr_TimeDelayAdapter_get_info (old src req : Option Int) :
+    Tr.TimeDelayAdapter_get_info old src req = .ok src := by
+  simp [Tr.TimeDelayAdapter_get_info, pure, Except.pure]
 
 /-! ### the property, stated on the regenerated definitions
 
